@@ -129,8 +129,23 @@ func (x *Exec) bumpHeapVersion(st *State) {
 	st.hver = x.hverCounter
 }
 
+// dataHeap: heaps that can hold geometry data (everything except raw bytes,
+// interface boxes and error values); only these key the uninterpreted spec
+// functions of heap-dependent values.
+func dataHeap(t types.Type) bool {
+	switch u := t.Underlying().(type) {
+	case *types.Interface:
+		return false
+	case *types.Basic:
+		return u.Kind() != types.Uint8 && u.Kind() != types.Int32 && u.Info()&types.IsString == 0
+	}
+	return true
+}
+
 func (x *Exec) setHeap(st *State, t types.Type, term string) {
-	x.bumpHeapVersion(st)
+	if dataHeap(t) {
+		x.bumpHeapVersion(st)
+	}
 	k := x.te.HeapKey(t)
 	x.heapTypes[k] = t
 	st.heaps[k] = x.S.Define("h", x.te.HeapSort(t), term)
